@@ -729,6 +729,10 @@ func (n *ExtendsNode) Render(w io.Writer, ctx *RenderContext) error {
 	parentCtx := NewRenderContext(ctx.env, ctx.context, ctx.engine)
 	parentCtx.extending = true // Flag that the parent is being extended
 
+	// The parent template sees the same variables as the child, including those
+	// the child inherits from an enclosing context (an included template)
+	parentCtx.parent = ctx.parent
+
 	// Pass along the parent template as lastLoadedTemplate for relative path resolution
 	parentCtx.lastLoadedTemplate = parentTemplate
 
@@ -847,47 +851,29 @@ func (n *IncludeNode) Render(w io.Writer, ctx *RenderContext) error {
 		}
 	}
 
-	// Create optimized context handling for includes
-
-	// Fast path: if no special handling needed and not sandboxed, render with current context
-	if !n.only && !n.sandboxed && len(n.variables) == 0 {
-		// Clone the context but with the new lastLoadedTemplate
-		includeCtx := ctx.Clone()
-		includeCtx.lastLoadedTemplate = template
-		defer includeCtx.Release()
-
-		return template.nodes.Render(w, includeCtx)
+	// The included template always renders in a context of its own, so that
+	// nothing it sets, loops over, receives through 'with' or defines (blocks,
+	// macros) changes what the including template sees afterwards
+	var includeCtx *RenderContext
+	if n.only {
+		// Only mode - the including template's variables are hidden
+		includeCtx = NewRenderContext(ctx.env, nil, ctx.engine)
+		includeCtx.sandboxed = ctx.sandboxed
+	} else {
+		// Child context: reads fall through to the including template's variables
+		includeCtx = ctx.Clone()
 	}
+	// Set the template as the lastLoadedTemplate for relative path resolution
+	includeCtx.lastLoadedTemplate = template
+	defer includeCtx.Release()
 
-	// Need a new context for 'only' mode, sandboxed mode, or with variables
-	includeCtx := ctx
-	if n.only || n.sandboxed {
-		var contextVars map[string]interface{}
+	// If sandboxed, enable sandbox mode
+	if n.sandboxed {
+		includeCtx.sandboxed = true
 
-		if n.only {
-			// Only mode - create empty context
-			contextVars = make(map[string]interface{}, len(n.variables))
-		} else {
-			// For sandboxed mode but not 'only' mode, copy the parent context
-			contextVars = make(map[string]interface{}, len(ctx.context)+len(n.variables))
-			for k, v := range ctx.context {
-				contextVars[k] = v
-			}
-		}
-
-		// Create a new context
-		includeCtx = NewRenderContext(ctx.env, contextVars, ctx.engine)
-		// Set the template as the lastLoadedTemplate for relative path resolutionn			includeCtx.lastLoadedTemplate = template
-		defer includeCtx.Release()
-
-		// If sandboxed, enable sandbox mode
-		if n.sandboxed {
-			includeCtx.sandboxed = true
-
-			// Check if a security policy is defined
-			if ctx.env.securityPolicy == nil {
-				return fmt.Errorf("cannot use sandboxed include without a security policy")
-			}
+		// Check if a security policy is defined
+		if ctx.env.securityPolicy == nil {
+			return fmt.Errorf("cannot use sandboxed include without a security policy")
 		}
 	}
 
